@@ -62,6 +62,7 @@ class Engine(object):
         self.assume = assume or {}          # bname -> callable(engine, fn, state) adding entry constraints
         self.opaque_calls = set(opaque_calls)
         self.unsupported = []
+        self.site_hooks = []        # callables (engine, fn, st, node, chain) run at every call node before it is interpreted
         self.range_sinks = {}       # callee bname -> (pointer arg index, length arg index): [p, p+n) must lie inside p's object
 
     # ---------------------------------------------------------------- atoms
@@ -413,6 +414,7 @@ class Engine(object):
         for h, body in heads.items():
             atoms, prefixes = set(), set()
             nonmono = set()
+            nonmonodown = set()
             for b in body:
                 for e in fn.blocks[b].elems:
                     if 'n' in e:
@@ -431,7 +433,17 @@ class Engine(object):
                         if not up:
                             nonmono |= a1
                         nonmono |= p1
-            info[h] = (body, atoms, prefixes, atoms - nonmono)
+                        down = False
+                        if n['k'] == 'UnaryOperator' and n.get('op') == '--':
+                            down = True
+                        elif n['k'] == 'CompoundAssignOperator' and n.get('op') == '-=':
+                            rt = fn.type_of(fn.N(fn.strip(n['ch'][1])))
+                            rv = fn.const_value(n['ch'][1])
+                            down = (rv is not None and rv >= 0) or is_unsigned(rt)
+                        if not down:
+                            nonmonodown |= a1
+                        nonmonodown |= p1
+            info[h] = (body, atoms, prefixes, atoms - nonmono, atoms - nonmonodown)
         fn._loopinfo = info
         return info
 
@@ -495,7 +507,19 @@ class Engine(object):
                         atoms.add(a)
                         prefixes.add(a)
 
-    def havoc(self, st, atoms=(), prefixes=(), mono=()):
+    def havoc(self, st, atoms=(), prefixes=(), mono=(), monodown=()):
+        for k in monodown:
+            # only ever decremented inside the loop (each decrement is separately proved not to wrap):
+            # the value at the head is the entry value minus something >= 0
+            if k in st.env and k not in mono:
+                d = Lin.atom(self.newatom('shrunk:' + k.split('::')[-1].split('@')[0]))
+                st.cons.append(ge(d))
+                st.env[k] = st.env[k] - d
+                t = self.obj_types.get(k)
+                if t:
+                    self.type_facts(st, st.env[k], t)
+                self._monodown_active = getattr(self, '_monodown_active', set()) | {k}
+        atoms = set(atoms) - set(m for m in monodown if m in st.env and m not in mono)
         for k in mono:
             # only ever incremented inside the loop: the value at the head is the entry value plus something >= 0
             if k in st.env:
@@ -536,8 +560,8 @@ class Engine(object):
             if start == 0 and b in loops:
                 if b in seen:
                     continue       # back edge: the head was analysed with everything the loop writes havocked
-                body, atoms, prefixes, mono = loops[b]
-                self.havoc(st, atoms, prefixes, mono)
+                body, atoms, prefixes, mono, monodown = loops[b]
+                self.havoc(st, atoms, prefixes, mono, monodown)
                 seen = seen | {b}
             ended = False
             elems = fn.blocks[b].elems
@@ -681,6 +705,8 @@ class Engine(object):
                 elif n['op'] == '-=':
                     v = old - r
                     if is_unsigned(t) and not self._has_base(old) and not implies(st.cons, ge(v)):
+                        if a in getattr(self, '_monodown_active', set()):
+                            self.oblige(fn, st, i, 'no-wrap', 'loop invariant: %s -= ... does not wrap below zero' % a.split('::')[-1], ge(v), chain)
                         v = Lin.atom(self.newatom('wrap', t, st))
                 elif n['op'] == '*=' and r.is_const():
                     v = old.scale(r.c)
@@ -742,6 +768,8 @@ class Engine(object):
         t = fn.type_of(n)
         if n.get('noret'):
             return 'end'
+        for hk in self.site_hooks:
+            hk(self, fn, st, i, chain)
         # ---- intrinsics with obligations
         if bcn in ('memcpy', 'memmove', 'memcmp') and len(args) == 3:
             nbytes = self.value(fn, st, args[2])
